@@ -48,6 +48,11 @@ pub fn real_verify(secp: &Secp256k1<All>, tx: &Transaction, utxos: &[TxOut]) -> 
     verdict(&catch_unwind(AssertUnwindSafe(|| tx.verify_tx_amt_proofs(secp, utxos))))
 }
 
+fn shape(o: &TxOut) -> String {
+    let a = match o.asset { Asset::Null => 'N', Asset::Explicit(_) => 'E', Asset::Confidential(_) => 'C' };
+    let v = match o.value { Value::Null => 'N', Value::Explicit(0) => 'Z', Value::Explicit(_) => 'E', Value::Confidential(_) => 'C' };
+    format!("{}{}", a, v)
+}
 fn vkind(v: &Value) -> String {
     match v { Value::Null => "n".into(), Value::Explicit(x) => format!("e{}", x), Value::Confidential(_) => "c".into() }
 }
@@ -179,6 +184,16 @@ fn flip_proof_byte<T, F: Fn(&[u8]) -> Option<T>>(rng: &mut R, ser: &[u8], parse:
 pub fn tamper_all(rng: &mut R, out: &mut Out, secp: &Secp256k1<All>, tx: &Transaction, utxos: &[TxOut]) {
     let orig = (tx, utxos);
     let bal = Some("err BalanceCheckFailed".to_string());
+    // which shapes the tampered transaction has (asset kind, amount kind [Z = explicit 0], proofs present)
+    for o in &tx.output {
+        out.count(&format!("tampered.out.{}.proofs_{}{}", shape(o), if o.witness.rangeproof.is_some() { "r" } else { "-" }, if o.witness.surjection_proof.is_some() { "s" } else { "-" }));
+    }
+    for u in utxos {
+        out.count(&format!("tampered.utxo.{}", shape(u)));
+    }
+    for i in &tx.input {
+        out.count(&format!("tampered.issuance.{}{}", vkind(&i.asset_issuance.amount).chars().next().unwrap(), vkind(&i.asset_issuance.inflation_keys).chars().next().unwrap()));
+    }
     let conf_v: Vec<usize> = (0..tx.output.len()).filter(|i| tx.output[*i].value.is_confidential()).collect();
     let conf_a: Vec<usize> = (0..tx.output.len()).filter(|i| tx.output[*i].asset.is_confidential()).collect();
     for i in 0..tx.output.len() {
@@ -233,8 +248,9 @@ pub fn tamper_all(rng: &mut R, out: &mut Out, secp: &Secp256k1<All>, tx: &Transa
                 tampered(out, secp, "negate_value_commitment", &t, utxos, orig, None);
             }
             // an explicit amount in place of the commitment
+            // (a value no range proof admits, so it cannot be the committed one)
             let mut t = tx.clone();
-            t.output[i].value = Value::Explicit(rng.gen_range(1..1000));
+            t.output[i].value = Value::Explicit(rng.gen_range((1u64 << 63)..u64::MAX));
             tampered(out, secp, "commitment_to_explicit", &t, utxos, orig, None);
             // range proof: removed, exchanged, corrupted
             let mut t = tx.clone();
@@ -267,6 +283,16 @@ pub fn tamper_all(rng: &mut R, out: &mut Out, secp: &Secp256k1<All>, tx: &Transa
             let mut t = tx.clone();
             t.output[i].asset = Asset::Confidential(gen::generator(rng));
             tampered(out, secp, "replace_asset_commitment", &t, utxos, orig, None);
+            // a well-formed commitment to an asset no input carries
+            let mut t = tx.clone();
+            t.output[i].asset = Asset::new_confidential(secp, gen::asset_id(rng), AssetBlindingFactor::new(rng));
+            tampered(out, secp, "foreign_asset_commitment", &t, utxos, orig, None);
+            // the asset made explicit (the foreign one, and any other)
+            let mut t = tx.clone();
+            t.output[i].asset = Asset::Explicit(gen::asset_id(rng));
+            if t.output[i].value != Value::Explicit(0) {
+                tampered(out, secp, "asset_commitment_to_explicit", &t, utxos, orig, None);
+            }
             for j in conf_a.iter().filter(|j| **j > i) {
                 let mut t = tx.clone();
                 let (a, b) = (t.output[i].asset, t.output[*j].asset);
@@ -438,7 +464,7 @@ fn random_utxo(rng: &mut R, secp: &Secp256k1<All>) -> TxOut {
 // explicit-only transactions: verifies iff balanced per asset
 
 fn explicit_case(rng: &mut R, out: &mut Out, secp: &Secp256k1<All>) {
-    let sh = Shape { n_in: rng.gen_range(1..=6), n_assets: rng.gen_range(1..=3), issuance: rng.gen_bool(0.4), max_outs: 3, zero_opreturn: rng.gen_bool(0.4) };
+    let sh = Shape { n_in: rng.gen_range(1..=6), n_assets: rng.gen_range(1..=3), issuance: rng.gen_bool(0.4), max_outs: 3, zero_opreturn: rng.gen_bool(0.4), utxo_mode: 0, conf_issuance: false, seq: 0 };
     let mut base: Base = c04::base_tx(rng, secp, &sh);
     // all spent outputs explicit
     // (`spent` lists inputs and pseudo-inputs in the verifier's order)
@@ -676,8 +702,26 @@ pub fn run(rng: &mut R, out: &mut Out) {
     }
     eprintln!("c05: exact proofs {:?} ({} ops)", t0.elapsed(), out.k.len());
     probe_rangeproof64(rng, out, &secp);
+    // verifying transactions with partially blinded inputs and outputs over the whole lattice (amount-only,
+    // asset-only, zero-value OP_RETURN with a blinded asset, confidential issuances), each tampered
+    let n_lat = if thorough { 150 } else { 6 };
+    for seq in 0..n_lat {
+        let sh = Shape {
+            n_in: 1 + seq % 4, n_assets: 1 + seq % 2, issuance: seq % 2 == 1, max_outs: 2, zero_opreturn: seq % 3 == 0,
+            utxo_mode: 1, conf_issuance: true, seq,
+        };
+        let base = c04::base_tx(rng, &secp, &sh);
+        c04::base_record(out, &base);
+        let l = match c04::lattice_tx(rng, out, &secp, &base, seq) { Some(l) => l, None => { out.count("lattice.not_built"); continue; } };
+        let r = decide_case(out, &secp, &l.tx, &base.utxos);
+        out.s("lattice_tx_verifies", r == "ok", || format!("kinds {:?} {} -> {}", l.kinds, det(&l.tx, &base.utxos), r));
+        if r != "ok" { continue; }
+        out.count("verifying_tx.lattice");
+        tamper_all(rng, out, &secp, &l.tx, &base.utxos);
+    }
+    eprintln!("c05: lattice+tampered {:?} ({} ops)", t0.elapsed(), out.k.len());
     // verifying transactions produced as in C04, each tampered in every class at every position
-    let n_tx = if thorough { 300 } else { 7 };
+    let n_tx = if thorough { 250 } else { 6 };
     let mut done = 0;
     let mut round = 0;
     while done < n_tx {
@@ -688,8 +732,12 @@ pub fn run(rng: &mut R, out: &mut Out) {
             issuance: rng.gen_bool(0.5),
             max_outs: 2,
             zero_opreturn: rng.gen_bool(0.25),
+            utxo_mode: match round % 6 { 0 => 0, 5 => 2, _ => 1 },
+            conf_issuance: true,
+            seq: round,
         };
         let base = c04::base_tx(rng, &secp, &sh);
+        c04::base_record(out, &base);
         let mk = c04::markable(&base.tx);
         if mk.is_empty() { continue; }
         let which: Vec<usize> = match rng.gen_range(0..3) {
@@ -699,7 +747,11 @@ pub fn run(rng: &mut R, out: &mut Out) {
         };
         let m = c04::mark(rng, &secp, &base, &which);
         let oc = c04::run_blind_quiet(rng, &secp, &m.tx, &base.spent);
-        let tx = match oc { Some(t) => t, None => { out.count("blind_failed"); continue; } };
+        let mut tx = match oc { Some(t) => t, None => { out.count("blind_failed"); continue; } };
+        // every other one also gets a zero-value OP_RETURN output with a blinded asset and its surjection proof
+        if round % 2 == 0 {
+            if c04::append_zero_conf_asset(rng, &secp, &mut tx, &base.spent).is_some() { out.count("lattice.out.CZ_appended"); }
+        }
         let r = decide_case(out, &secp, &tx, &base.utxos);
         out.s("blinded_tx_verifies", r == "ok", || format!("{} -> {}", det(&tx, &base.utxos), r));
         if r != "ok" { continue; }
